@@ -80,6 +80,8 @@ def chains(draw, tier, k2_class=False):
     depth = draw(st.sampled_from([0, 1, 1, 2, 2] if tier == "quick" else [0, 1, 2, 2, 3]))
     if k2_class:
         seq = [draw(_mod("fpow", 0))] + [draw(_mod("c", 4 - k))] * draw(st.integers(0, 1))
+        if nm in cgen.EXACT_ENTRY and k <= 1 and draw(st.integers(0, 2)) == 0:
+            seq = seq[:1] + [["exp"]]  # the same defect seen through an exponential above the power
         for m in seq:
             if m[0] == "c":
                 k += m[1]
@@ -173,6 +175,46 @@ def _k2_class(g, timeout):
     return hit and not has_exp_above, Q
 
 
+def _k2_hit(g, timeout):
+    """some non-integer power inside g has an operand with an eigenvalue on the negative real axis"""
+    for operand, p in _frac_nodes(g):
+        kind, W = forked(lambda: _npm(operand), timeout)
+        if kind != "ok":
+            continue
+        ev = np.linalg.eigvals(W)
+        if any(abs(l) > 1e-9 and abs(abs(np.angle(l)) - np.pi) < 1e-6 for l in ev):
+            return True
+    return False
+
+
+def _pushed_down_adjoint(g, timeout):
+    """What the library's rule 'the adjoint of w**e is (adjoint of w)**e' gives for the adjoint of g, evaluated numerically:
+    the adjoint is pushed through exp, controls and powers down to the first dagger wrapper or the base gate. It coincides
+    with the true adjoint unless a non-integer power meets an eigenvalue on the negative real axis (open finding K2)."""
+    from orquestra.quantum.circuits import _gates as G
+
+    if isinstance(g, G.Exponential):
+        M = _pushed_down_adjoint(g.wrapped_gate, timeout)
+        return None if M is None else sl.expm(M)
+    if isinstance(g, G.ControlledGate):
+        M = _pushed_down_adjoint(g.wrapped_gate, timeout)
+        return None if M is None else ref.controlled(M, g.num_control_qubits)
+    if isinstance(g, G.Power):
+        M = _pushed_down_adjoint(g.wrapped_gate, timeout)
+        if M is None:
+            return None
+        e = float(g.exponent)
+        if e == int(e):
+            return np.linalg.matrix_power(M, int(e)) if e >= 0 else np.linalg.matrix_power(np.linalg.inv(M), -int(e))
+        return sl.fractional_matrix_power(M, e)
+    if isinstance(g, G.Dagger):
+        kind, W = forked(lambda: _npm(g.wrapped_gate), timeout)
+        return W if kind == "ok" else None
+    kind, W = forked(lambda: _npm(g), timeout)
+    # "+ 0" removes the negative zeros that conj() leaves behind (they would select the other branch of a root of -1)
+    return (W.conj().T + (0 + 0j)) if kind == "ok" else None
+
+
 def oracle(spec, timeout=8.0):
     g = cgen.build_gate({**spec["base"], "mods": spec["mods"]})
     m = spec["m"]
@@ -206,6 +248,12 @@ def oracle(spec, timeout=8.0):
                 BQ, AQ = np.linalg.matrix_power(B, Q), np.linalg.matrix_power(A.conj().T, Q)
                 if np.allclose(BQ, AQ, atol=1e-6 * max(1.0, float(np.max(np.abs(AQ))))):
                     return {"known": "K2", "classes": ["k2_signature"], "nontrivial": False}
+            # the same defect seen through further wrappers (exp above the power, ...): the reported matrix is exactly what
+            # pushing the adjoint through the non-integer power gives
+            if _k2_hit(g, timeout):
+                P = _pushed_down_adjoint(g, timeout)
+                if P is not None and P.shape == B.shape and np.allclose(B, P, atol=1e-6 * max(1.0, float(np.max(np.abs(P))))):
+                    return {"known": "K2", "classes": ["k2_signature_pushed_down"], "nontrivial": False}
         require(ok, lambda: f"dagger of {g}: matrix is not the conjugate transpose, max|d|={ref.maxdiff(B, A.conj().T):.3g}")
     elif m[0] == "c":
         D = d * 2 ** m[1]
